@@ -268,7 +268,7 @@ def poly_vertices(G, b, lo, hi, tol=1e-9):
         fixed = list(fixed)
         rest = [j for j in range(n) if j not in fixed]
         M = G[:, rest]
-        if abs(np.linalg.det(M)) < 1e-12 * max(1.0, np.max(np.abs(M))) ** m:
+        if abs(np.linalg.det(M)) <= 1e-12 * float(np.max(np.abs(M))) ** m:  # relative to the entries: the unit of capture must not matter
             continue
         for corner in itertools.product((0, 1), repeat=k):
             xf = np.where(np.array(corner) == 1, hi[fixed], lo[fixed]) if k else np.zeros(0)
